@@ -275,6 +275,7 @@ func (c *Ctx) opaque(v ssa.Value) lin.Form {
 		if lo, hi, ok := typeRange(v.Type()); ok {
 			c.add(lin.GE(f, lin.KB(lo)), lin.LE(f, lin.KB(hi)))
 		}
+		c.elemFacts(v, f)
 	}
 	return f
 }
